@@ -136,12 +136,15 @@ def selftest(traces, extra):
         d = cp("#no-fetch")                 # hidden children never probed (only meaningful if something is hidden)
         d["events"] = [e for e in d["events"] if e["ev"] != "fetch"]
         e_ = cp("#dup")
+        kidsels = {t["init"]["d"]["sb"] + "/" + k["name"] for k in t["init"]["d"]["kids"]}
         for i in resp:
-            e_["events"][i]["listing"] = e_["events"][i]["listing"] + e_["events"][i]["listing"][:1]
+            e_["events"][i]["listing"] = e_["events"][i]["listing"] + [x for x in e_["events"][i]["listing"] if x["sel"] in kidsels][:1]
         bad += [a, b, c, e_] + ([d] if t["hidden"] else [])
     tv = tlc.validate_traces("TraceC07", "TraceC07_run.cfg", bad, extra_files=extra)
     if tv["accepted"] != 0:
-        raise core.MachineryError("C07 selftest: TraceC07 accepted %d corrupted traces" % tv["accepted"])
+        rej = {r["trace"]["id"] for r in tv["rejected"]}
+        raise core.MachineryError("C07 selftest: TraceC07 accepted %d corrupted traces: %s"
+                                  % (tv["accepted"], [b_["id"] for b_ in bad if b_["id"] not in rej]))
     return {"ran": True, "corrupted": len(bad), "rejected": len(tv["rejected"]),
             "clauses": sorted({r["clause"] for r in tv["rejected"]})}
 
